@@ -1731,20 +1731,44 @@ open Frappy Frappy.Datatypes FloatOps Frappy.Lemmas.C03Datainfo
 variable {F : Type} [FloatOps F] [LawfulFloatOps F] [CompatLaws F]
 
 /-- the full statement: for EVERY well-formed datatype tree the client rebuilt from the exported datainfo answers every
-payload as the original does.  It fails for scaled limits that are not on the grid (`derived_datainfo_equiv_fails`,
-recorded finding `C06:datainfo-disagrees:scaled-limit-off-grid`); `derived_datainfo_equiv_partial` proves it for
-all trees whose scaled limits are grid values (`Exportable`). -/
+payload as the original does.  Before the repair of `ScaledInteger.validate` (`fixed` in `known_findings/C06.json`) it
+was FALSE (scaled limits off the grid; the former `derived_datainfo_equiv_fails`).  Now
+`derived_datainfo_equiv_partial` proves it for every tree with on-grid limits (no further condition) and for every
+tree with off-grid limits under two conditions, which are exactly what is missing for the unrestricted statement:
+(1) the carrier is `GridStable` (`round((k*scale)/scale) = k`; proved for `Rat`; binary64: holds while `|k| < 2^51`,
+re-tested in every run), (2) the grid values of the scaled limits are finite numbers (`snapLimits t` exists).  Without
+(2) `export_datatype` raises `OverflowError` (no description at all), or the described limit `index * scale` lies
+beyond the float range: the node's datatype then refuses every number with a RangeError (C01: `scaledCall` of the
+limit); what the rebuilt client does is not covered by C03's rebuild theorems (on the example
+`ScaledInteger(7, 0, max)` over `Rat` the model's client agrees with the node on the payloads tried; neither proved
+nor refuted in general). -/
 def derived_datainfo_equiv_statement (F : Type) [FloatOps F] : Prop :=
   ∀ (D : Consts F), D.OK → ∀ t : DInfo F, t.WF D →
     ∃ di, exportDatatype D t = .ok di ∧ ∀ j prev, clientAccept D di j prev = acceptWire t.erase j prev
 
+/-- the scaled limits of the tree can be described: they are on the grid, or - over a `GridStable` carrier - their grid
+values are finite numbers -/
+def LimitsDescribable (F : Type) [FloatOps F] (t : DInfo F) : Prop :=
+  t.Exportable ∨ (GridStable F ∧ (DInfo.snapLimits t).isSome = true)
+
 /-- **derived_datainfo_equiv_partial** (the datatype-oracle law `AcceptLaw`, PROVED for the datatype trees of C01–C03).  For
-every well-formed tree whose scaled limits lie on the grid: `export_datatype()` succeeds, and a client that rebuilds
-its datatype from that datainfo does with EVERY payload (and every previous value) exactly what the dispatcher does
-with the original object — same verdict, same error class, same value. -/
-theorem derived_datainfo_equiv_partial (D : Consts F) (hD : D.OK) (t : DInfo F) (hwf : t.WF D) (hex : t.Exportable) :
+every well-formed tree whose scaled limits lie on the grid OR NOT (then: carrier `GridStable`, finite grid values):
+`export_datatype()` succeeds, and a client that rebuilds its datatype from that datainfo does with EVERY payload (and
+every previous value) exactly what the dispatcher does with the original object — same verdict, same error class,
+same value. -/
+theorem derived_datainfo_equiv_partial (D : Consts F) (hD : D.OK) (t : DInfo F) (hwf : t.WF D)
+    (hex : LimitsDescribable F t) :
     ∃ di, exportDatatype D t = .ok di ∧ ∀ j prev, clientAccept D di j prev = acceptWire t.erase j prev := by
-  obtain ⟨di, t', h1, h2, _, h4, h5⟩ := Frappy.Props.C03.rebuild_equiv D hD t hwf hex
+  have key : ∃ di t', exportDatatype D t = .ok di ∧ getDatatype D di = .ok t' ∧
+      (∀ v prev, validate t'.erase v prev = validate t.erase v prev) ∧
+      (∀ w, importValue t'.erase w = importValue t.erase w) := by
+    rcases hex with hex | ⟨hG, hs⟩
+    · obtain ⟨di, t', h1, h2, _, h4, h5⟩ := Frappy.Props.C03.rebuild_equiv D hD t hwf hex
+      exact ⟨di, t', h1, h2, h4, h5⟩
+    · obtain ⟨t1, e1⟩ := Option.isSome_iff_exists.1 hs
+      obtain ⟨_, _, di, t', h1, _, h2, _, h4, h5⟩ := Frappy.Props.C03.rebuild_snaps hG D hD t t1 hwf e1
+      exact ⟨di, t', h1, h2, h4, h5⟩
+  obtain ⟨di, t', h1, h2, h4, h5⟩ := key
   refine ⟨di, h1, fun j prev => ?_⟩
   unfold clientAccept acceptWire
   rw [h2]; simp only [h5 j]
@@ -1780,23 +1804,51 @@ theorem configured_scaled_described (D : Consts F) (hD : D.OK) (s mn mx ar rr x 
     simp only [DInfo.WF, DType.WF] at hwf ⊢
     obtain ⟨⟨a1, a2, a3, _, _, a6, _, a8, a9, a10, a11⟩, b⟩ := hwf
     exact ⟨⟨a1, a2, a3, hx, hle, a6, hc, a8, a9, a10, a11⟩, b⟩
-  have hex : (DInfo.scaled s mn x ar rr u f).Exportable := ⟨hmn, hax⟩
+  have hex : LimitsDescribable F (DInfo.scaled s mn x ar rr u f) := Or.inl ⟨hmn, hax⟩
   refine ⟨_, cfg_limit_stored D hD .max x s mn mx ar rr u f hx hc, hle, hwf', ?_⟩
   obtain ⟨_, kmax, fields, e1, _, e3, _, e5⟩ := Frappy.Props.C03.scaled_description_exact D s mn x ar rr u f hmn hax
   obtain ⟨di, d1, d2⟩ := derived_datainfo_equiv_partial D hD _ hwf' hex
   rw [e1] at d1; injection d1 with d1; subst d1
   exact ⟨kmax, fields, e1, e3, e5, d2⟩
 
+/-- **configured_scaled_offgrid** (the repaired finding `scaled-limit-off-grid`).  Let the configuration set `max` of a
+well-formed scaled datatype to ANY finite `x ≥ min` — a multiple of the scale or not — such that the limits have finite
+grid values.  Then the instance datatype keeps `x` as given, is well formed, its description states the grid index
+`round(x / scale)` as `max`, and the datatype a client rebuilds from the described datainfo treats every payload (every
+previous value) exactly as the node does: same verdict, same error class, same value. -/
+theorem configured_scaled_offgrid (hG : GridStable F) (D : Consts F) (hD : D.OK) (s mn mx ar rr x : F) (u f : String)
+    (hwf : (DInfo.scaled s mn mx ar rr u f).WF D) (hx : isFinite x = true) (hc : addZero x = x)
+    (hle : le mn x = true) (hfin : (DInfo.snapLimits (.scaled s mn x ar rr u f)).isSome = true) :
+    ∃ t', setLimit D .max (.float x) (.scaled s mn mx ar rr u f) = .ok t' ∧ limitsOrdered t' = true ∧ t'.WF D ∧
+      ∃ kmax fields, DType.gridIndex s x = some kmax ∧ exportDatatype D t' = .ok (.obj fields) ∧
+        PVal.dictGet fields "max" = some (.int kmax) ∧
+        ∀ j prev, clientAccept D (.obj fields) j prev = acceptWire t'.erase j prev := by
+  have hwf' : (DInfo.scaled s mn x ar rr u f).WF D := by
+    simp only [DInfo.WF, DType.WF] at hwf ⊢
+    obtain ⟨⟨a1, a2, a3, _, _, a6, _, a8, a9, a10, a11⟩, b⟩ := hwf
+    exact ⟨⟨a1, a2, a3, hx, hle, a6, hc, a8, a9, a10, a11⟩, b⟩
+  refine ⟨_, cfg_limit_stored D hD .max x s mn mx ar rr u f hx hc, hle, hwf', ?_⟩
+  obtain ⟨di, d1, d2⟩ := derived_datainfo_equiv_partial D hD _ hwf' (Or.inr ⟨hG, hfin⟩)
+  have d1' := d1
+  rw [exportDatatype] at d1'
+  split at d1'
+  · rename_i k1 k2 e1 e2
+    injection d1' with d1'
+    subst d1'
+    refine ⟨k2, _, e2, d1, ?_, d2⟩
+    simp [dictGet_append, dictGet_optField, dictGet_cons, dictGet_scaledAbsRes_ne]
+  · cases d1'
+
 /-- **described_datainfo_equiv_derived** (`described_datainfo_equiv` without the oracle assumption).  In a well-formed
 node over the datatype model, let the parameter the dispatcher resolves for a described name carry the operations of
-ONE tree `t` (`dtOpsOf`: the object that is described is the object that validates), well formed with its scaled limits
-on the grid.  Then a client that rebuilds its datatype from the DESCRIBED datainfo of `m:a` answers every payload as the
+ONE tree `t` (`dtOpsOf`: the object that is described is the object that validates), well formed with describable scaled
+limits (`LimitsDescribable`: on the grid, or off the grid with finite grid values over a `GridStable` carrier).  Then a client that rebuilds its datatype from the DESCRIBED datainfo of `m:a` answers every payload as the
 node's `change m:a` validation does. -/
 theorem described_datainfo_equiv_derived (pre : Predef) (D : Consts F) (hD : D.OK) (n : Node (JVal F) (PVal F))
     (hwf : Node.WF pre n) (m a : String) (ad : AccDesc (JVal F)) (h : findDesc (describe pre n) m a = some ad)
     (hk : ad.kind = .parameter) :
     ∃ mod p, lookupParam pre n m a = .ok (mod, p) ∧
-      ∀ ev t, p.dt = dtOpsOf D ev t → t.WF D → t.Exportable →
+      ∀ ev t, p.dt = dtOpsOf D ev t → t.WF D → LimitsDescribable F t →
         ∀ j prev, liftRes (clientAccept D ad.datainfo j prev) = p.dt.accept j prev := by
   obtain ⟨mod, p, hl, _, hdi, _, _⟩ := described_is_dispatched pre n hwf m a ad h hk
   refine ⟨mod, p, hl, fun ev t hp htw hte j prev => ?_⟩
@@ -1807,7 +1859,9 @@ theorem described_datainfo_equiv_derived (pre : Predef) (D : Consts F) (hD : D.O
 /-- **instance_limit_from_cfg** (class + configuration ↦ the datatype object of the instance).  For a well-formed scaled
 datatype of the class with on-grid limits, `copy()` is the identity (C03 `copy_core`), so the instance datatype is the
 class datatype with the configured limit put in AS GIVEN — on the grid or not (compare C03 `copy_snaps`: a limit of
-the CLASS that is off the grid is moved to it by the copy; this asymmetry is the recorded finding). -/
+the CLASS that is off the grid is moved to it by the copy, a configured one is not.  Since the repair of
+`ScaledInteger.validate` the difference is invisible: `validate` reads a limit through its grid value only, C03
+`snapLimits_same_behaviour`; `configured_scaled_offgrid`). -/
 theorem instance_limit_from_cfg (D : Consts F) (hD : D.OK) (s mn mx ar rr x : F) (u f : String)
     (hwf : (DInfo.scaled s mn mx ar rr u f).WF D) (hex : (DInfo.scaled s mn mx ar rr u f).Exportable)
     (hx : isFinite x = true) (hc : addZero x = x) (hle : le mn x = true) :
@@ -1819,12 +1873,12 @@ theorem instance_limit_from_cfg (D : Consts F) (hD : D.OK) (s mn mx ar rr x : F)
 
 /-- **model_change_probe_ok_derived** (the monitor clause "a payload the described datainfo excludes is refused, nothing
 is written" holds of the model WITHOUT an oracle assumption).  In a node over the datatype model whose parameters all
-carry the operations of one well-formed tree with on-grid scaled limits, the exchange of ANY `change m:a` aimed at a
+carry the operations of one well-formed tree with describable scaled limits (on the grid or not), the exchange of ANY `change m:a` aimed at a
 described parameter satisfies `ProbeOK`, the client verdict being computed from the DESCRIBED datainfo
 (`get_datatype`, `import_value`, `validate` against the value held). -/
 theorem model_change_probe_ok_derived [DecidableEq (JVal F)] (pre : Predef) (D : Consts F) (hD : D.OK)
     (env : Env (PVal F)) (n : Node (JVal F) (PVal F)) (hwf : Node.WF pre n) (hno : NoForeignReadOnly env n)
-    (hdt : ∀ mod ∈ n, ∀ p, Acc.param p ∈ mod.accs → ∃ ev t, p.dt = dtOpsOf D ev t ∧ t.WF D ∧ t.Exportable)
+    (hdt : ∀ mod ∈ n, ∀ p, Acc.param p ∈ mod.accs → ∃ ev t, p.dt = dtOpsOf D ev t ∧ t.WF D ∧ LimitsDescribable F t)
     (m a : String) (j : JVal F) (allowed : Bool)
     (hallowed : allowed = true → ∃ m' a' hw v w, changeVerdict pre env n (.full m a) j = .allow m' a' hw v w)
     (ad : AccDesc (JVal F)) (hd : findDesc (describe pre n) m a = some ad) (hk : ad.kind = .parameter) :
@@ -1924,18 +1978,30 @@ example : ∃ di, exportDatatype D4 t4 = .ok di ∧
     clientAccept D4 di (.int 5) none = acceptWire t4.erase (.int 5) none ∧
     look (acceptWire t4.erase (.int 3) none) = (none, some (3/10)) ∧
     look (acceptWire t4.erase (.int 5) none) = (some .range, none) := by
-  obtain ⟨di, h1, h2⟩ := derived_datainfo_equiv_partial D4 D4_ok t4 t4_wf t4_exportable
+  obtain ⟨di, h1, h2⟩ := derived_datainfo_equiv_partial D4 D4_ok t4 t4_wf (Or.inl t4_exportable)
   exact ⟨di, h1, h2 _ _, h2 _ _, by decide +kernel, by decide +kernel⟩
 
 
 /-- a scaled limit OFF the grid, as a configuration may set it (`cfg_limit_stored`: nothing moves it): `max = 0.34` at
-scale 0.1.  The description says `max = 3`; the node takes the payload 4 (0.4 lies within one scale of 0.34: it is
-"silently clamped" to the grid value 0.3 of the limit), the client rebuilt from the description (limit 0.3: 0.4 is a
-full scale away) refuses it. -/
+scale 0.1.  The description says `max = 3`.  Before the repair the node took the payload 4 (0.4 < 0.34 + 0.1, "silently
+clamped" to 0.3) while the client rebuilt from the description refused it (recorded finding
+`C06:datainfo-disagrees:scaled-limit-off-grid`, now `fixed`); the repaired `validate` measures the band from the grid
+value 0.3 of the limit: node and client refuse 4 and accept 3. -/
 def t5 : DInfo Rat := .scaled (1/10) 0 (34/100) (1/10) (12/100000000) "" "%g"
 
 theorem t5_wf : t5.WF D4 := by
   simp only [t5, DInfo.WF, DType.WF, DInfo.strOK]; decide +kernel
+
+theorem t5_not_exportable : ¬ t5.Exportable := by
+  intro h; exact absurd h.2 (by unfold DInfo.Aligned; decide +kernel)
+
+theorem t5_describable : LimitsDescribable Rat t5 := by
+  refine Or.inr ⟨Frappy.Lemmas.C03Datainfo.rat_gridStable, ?_⟩
+  have h1 : DType.snap (1/10 : Rat) 0 = some 0 := by decide +kernel
+  have h2 : DType.snap (1/10 : Rat) (34/100) = some (3/10) := by decide +kernel
+  have f1 : isFinite (0 : Rat) = true := by decide +kernel
+  have f2 : isFinite (3/10 : Rat) = true := by decide +kernel
+  simp [t5, DInfo.snapLimits, h1, h2, f1, f2]
 
 def di5 : JVal Rat := .obj [("scale", .num (1/10)), ("type", .str "scaled"), ("min", .int 0), ("max", .int 3)]
 
@@ -1946,20 +2012,18 @@ theorem export5 : exportDatatype D4 t5 = .ok di5 := by
   have h4 : (!feq (12/100000000 : Rat) D4.relRes) = false := by decide +kernel
   simp [t5, di5, exportDatatype, h1, h2, h3, h4, optField]
 
-theorem offgrid5 : look (acceptWire t5.erase (.int 4) none) = (none, some (3/10)) ∧
-    look (clientAccept D4 di5 (.int 4) none) = (some .range, none) := by
-  refine ⟨by decide +kernel, by decide +kernel⟩
+/-- the former counterexample, computed by the model of the repaired code: node and client agree on 3 and on 4 -/
+theorem offgrid5 : look (acceptWire t5.erase (.int 4) none) = (some .range, none) ∧
+    look (clientAccept D4 di5 (.int 4) none) = (some .range, none) ∧
+    look (acceptWire t5.erase (.int 3) none) = (none, some (3/10)) ∧
+    look (clientAccept D4 di5 (.int 3) none) = (none, some (3/10)) := by
+  refine ⟨by decide +kernel, by decide +kernel, by decide +kernel, by decide +kernel⟩
 
-/-- **derived_datainfo_equiv_fails**: the full statement does not hold (over the exact carrier: no rounding involved) -/
-theorem derived_datainfo_equiv_fails : ¬ derived_datainfo_equiv_statement Rat := by
-  intro h
-  obtain ⟨di, h1, h2⟩ := h D4 D4_ok t5 t5_wf
+/-- `derived_datainfo_equiv_partial` applies to it (non-vacuity of the off-grid arm): EVERY payload -/
+example : ∀ j prev, clientAccept D4 di5 j prev = acceptWire t5.erase j prev := by
+  obtain ⟨di, h1, h2⟩ := derived_datainfo_equiv_partial D4 D4_ok t5 t5_wf t5_describable
   rw [export5] at h1; injection h1 with h1; subst h1
-  have := h2 (.int 4) none
-  have h3 := offgrid5
-  rw [this] at h3
-  have : (none, some (3/10 : Rat)) = ((some Err.range, none) : Option Err × Option Rat) := h3.1.symm.trans h3.2
-  cases this
+  exact h2
 
 def p4 : Param (JVal Rat) (PVal Rat) :=
   { attr := "p", exp := .auto, limitHead := none, isLimitsPair := false, readonly := false, constant := none,
@@ -2001,7 +2065,7 @@ example : ∃ ad, findDesc (describe pre node4) "m" "_p" = some ad ∧
       simp only [m4, List.mem_singleton] at this
       injection this
     subst hp
-    exact ⟨ad, rfl, hall _ t4 rfl t4_wf t4_exportable⟩
+    exact ⟨ad, rfl, hall _ t4 rfl t4_wf (Or.inl t4_exportable)⟩
 
 end Example4
 
